@@ -539,6 +539,12 @@ def terms_to_ops(rng, terms, explicit_qn=True):
                 live = [i for i, s in enumerate(seqs) if s]
                 i = live[int(rng.integers(len(live)))]
                 merged.append(seqs[i].pop(0))
+        # `Op` glues the substring "b^\dagger + b" into ONE symbol; a spin "+" that lands between an
+        # oscillator's b^\dagger and b would be swallowed (a parsing quirk of Op, C15's subject, not
+        # of the tree code): write that "+" as the synonymous "sigma_+"
+        for i in range(1, len(merged) - 1):
+            if merged[i][0] == "+" and merged[i - 1][0] == r"b^\dagger" and merged[i + 1][0] == "b":
+                merged[i] = ("sigma_+",) + tuple(merged[i][1:])
         sym = " ".join(m[0] for m in merged)
         dofs = [m[1] for m in merged]
         qn = [list(m[2]) for m in merged] if explicit_qn else None
